@@ -506,7 +506,7 @@ func c11AppFace(c *core.Ctx) {
 		return
 	}
 	var nums []ssa.Value
-	core.Instrs(fn, func(in ssa.Instruction) {
+	core.InstrsDeep(fn, func(in ssa.Instruction) {
 		if e, ok := in.(*ssa.Extract); ok && e.Index == 0 && isCallTo(e.Tuple, core.CalleeID{Pkg: "std/encoding", Name: "ReadTLNum"}) {
 			nums = append(nums, e)
 		}
@@ -520,7 +520,7 @@ func c11AppFace(c *core.Ctx) {
 	r0, _ := core.CallArgs(&t.(*ssa.Extract).Tuple.(*ssa.Call).Call)
 	_ = r0
 	var mk *ssa.MakeSlice
-	core.Instrs(fn, func(in ssa.Instruction) {
+	core.InstrsDeep(fn, func(in ssa.Instruction) {
 		if m, ok := in.(*ssa.MakeSlice); ok {
 			if bt, ok := m.Type().Underlying().(*types.Slice); ok {
 				if b, ok := bt.Elem().Underlying().(*types.Basic); ok && b.Kind() == types.Uint8 {
@@ -537,7 +537,7 @@ func c11AppFace(c *core.Ctx) {
 	// offsets
 	okT, okL, okV := false, false, false
 	var full ssa.CallInstruction
-	core.Instrs(fn, func(in ssa.Instruction) {
+	core.InstrsDeep(fn, func(in ssa.Instruction) {
 		ci, ok := in.(ssa.CallInstruction)
 		if !ok {
 			return
@@ -571,7 +571,7 @@ func c11AppFace(c *core.Ctx) {
 	c.Decide(full != nil && okV, "R11.2", "value-read-in-full", c.Pos(mk), "io.ReadFull reads the value into buffer[len(T)+len(L):], i.e. exactly L bytes", "the value is not read with io.ReadFull into buffer[len(T)+len(L):]: a short read (any chunking of the stream) hands up a partly filled block, or the next block starts at the wrong byte")
 	// hand-up: onPkt(NewBufferReader(buf))
 	okUp := false
-	core.Instrs(fn, func(in ssa.Instruction) {
+	core.InstrsDeep(fn, func(in ssa.Instruction) {
 		cl, ok := in.(*ssa.Call)
 		if !ok || cl.Call.IsInvoke() || cl.Call.StaticCallee() != nil {
 			return
